@@ -20,14 +20,14 @@ ASSUMPTIONS = ["accept values differing only in letter case and subprotocol name
 STATUSES = [100, 101, 200, 204, 301, 302, 303, 307, 308, 400, 404, 500]
 UPGRADES = ["websocket", "WebSocket", "  websocket ", "foo, websocket", "foo", None, "websockets", "x-websocket"]
 CONNECTIONS = ["Upgrade", "upgrade", "keep-alive, Upgrade", "close", None, "Upgraded, keep-alive"]
-ACCEPTS = ["right", "absent", "otherkey", "prevkey", "altered", "truncated"]
+ACCEPTS = ["right", "absent", "otherkey", "prevkey", "altered", "truncated", "junk-appended", "extra-pad", "inserted-char", "space-inside", "lowbits"]
 OFFERED = [None, ["a", "b"]]
 SELECTED = [None, "a", "A", "c"]
 REDIRECTS = (301, 302, 303, 307, 308)
 
 
 def bounds(tier):
-    return "27648 recipes; redirect chains of length 0..5 x limits {0,1,2,default,5} x 4 endings x 5 redirect statuses; 3 fault kinds (EOF, timeout, reset) at every byte, 2 hops"
+    return "50688 recipes; redirect chains of length 0..5 x limits {0,1,2,default,5} x 4 endings x 5 redirect statuses; 3 fault kinds (EOF, timeout, reset) at every byte, 2 hops"
 
 
 def tasks(tier, seed):
@@ -80,6 +80,19 @@ def build_response(req, status, upgrade, connection, accept, selected, prevkey="
         lines.append(b"Sec-WebSocket-Accept: " + alter(right).encode())
     elif accept == "truncated":
         lines.append(b"Sec-WebSocket-Accept: " + right[:-2].encode())
+    elif accept == "junk-appended":
+        lines.append(b"Sec-WebSocket-Accept: " + right.encode() + b"AAAA")
+    elif accept == "extra-pad":
+        lines.append(b"Sec-WebSocket-Accept: " + right.encode() + b"=")
+    elif accept == "inserted-char":
+        lines.append(b"Sec-WebSocket-Accept: " + (right[:10] + "!" + right[10:]).encode())
+    elif accept == "space-inside":
+        lines.append(b"Sec-WebSocket-Accept: " + (right[:12] + " " + right[12:]).encode())
+    elif accept == "lowbits":
+        # the last base64 digit before the padding carries two unused bits: another digit that decodes to the same 20 bytes
+        alpha = "ABCDEFGHIJKLMNOPQRSTUVWXYZabcdefghijklmnopqrstuvwxyz0123456789+/"
+        i = alpha.index(right[-2])
+        lines.append(b"Sec-WebSocket-Accept: " + (right[:-2] + alpha[i ^ 1] + "=").encode())
     if selected is not None:
         lines.append(b"Sec-WebSocket-Protocol: " + selected.encode())
     if location is not None:
